@@ -89,6 +89,7 @@ func cleanEnv(extra []string) []string {
 
 var codeRe = regexp.MustCompile(`^error: \[([A-Z]+[0-9]+)\]`)
 var posRe = regexp.MustCompile(`^(.*):(\d+):(\d+)$`)
+var excerptLine = regexp.MustCompile(`^\s*\d* \| `)
 
 func Run(o Opts) *Result {
 	bin := o.Bin
@@ -251,9 +252,16 @@ func (r *Result) Crashed(text bool) (bool, string) {
 	if r.TimedOut {
 		return true, "timeout"
 	}
-	for _, pat := range []string{"panic:", "fatal error:", "internal error", "SIGSEGV", "goroutine 1 ["} {
-		if strings.Contains(r.Stderr, pat) {
-			return true, "stderr contains " + pat
+	// crash markers are looked for on lines of stderr that are not part of a rendered diagnostic (text mode prints
+	// source excerpts "NN | <source line>" on stderr, and real source code does contain words like "internal error")
+	for _, line := range strings.Split(r.Stderr, "\n") {
+		if excerptLine.MatchString(line) {
+			continue
+		}
+		for _, pat := range []string{"panic: ", "fatal error: ", "internal error: ", "SIGSEGV", "[signal ", "goroutine 1 ["} {
+			if strings.HasPrefix(line, pat) || (pat == "internal error: " && strings.Contains(line, pat)) || (pat == "SIGSEGV" && strings.Contains(line, pat)) {
+				return true, "stderr contains " + strings.TrimSpace(pat)
+			}
 		}
 	}
 	if text {
